@@ -16,3 +16,12 @@ class val(Enum):
 
 class _PrivateColor(Enum):
     RED = 1
+
+
+class Outer:
+    class Nested:
+        pass
+
+
+class uses_nested_base(Outer.Nested):
+    """A nested class as superclass: the stub imports it from a package that has no stub (recorded finding)."""
